@@ -700,8 +700,9 @@ class EvolveAppTask(BaseEvolutionTask):
             applied_evolutions = get_applied_evolutions(task.app,
                                                         database=database_name)
 
-            if applied_evolutions:
-                graph.mark_evolutions_applied(task.app, applied_evolutions)
+            # This is needed even if nothing was applied: An app without
+            # any evolution nodes still has anchors others may depend on.
+            graph.mark_evolutions_applied(task.app, applied_evolutions)
 
         # The graph is built! Finalize it (which will check that all
         # dependencies are valid) so we can begin converting it into batches
